@@ -161,6 +161,8 @@ type Exec struct {
 	loopCache map[*ssa.Function]*loopInfo
 	globalCells map[string]*Cell
 	BigWrites []BigWrite
+	resultMode bool
+	constSeen map[string]bool
 	Debug   bool
 }
 
@@ -293,7 +295,13 @@ func (ex *Exec) symVal(st *State, name string, t types.Type, depth int) Val {
 	}
 	if isBigIntPtr(t) {
 		r := ex.declInput(name+"!ref", IntSort)
-		ex.Assumes = append(ex.Assumes, IGe(r, IntC(0)))
+		if !ex.resultMode {
+			ex.Assumes = append(ex.Assumes, IGe(r, IntC(0)))
+			// alias for the entry value of the referenced big.Int (model extraction for replay)
+			alias := sanitizeSym(name + "!ref!val")
+			ex.Defs = append(ex.Defs, Def{Name: alias, S: IntSort, T: Select(Sym("heap0", ArraySort(IntSort, IntSort)), r)})
+			ex.Inputs = append(ex.Inputs, alias)
+		}
 		return PtrV{K: PBig, Ref: r, Elem: t.(*types.Pointer).Elem()}
 	}
 	switch u := t.Underlying().(type) {
@@ -331,6 +339,14 @@ func (ex *Exec) symVal(st *State, name string, t types.Type, depth int) Val {
 		l := ex.declInput(name+"!len", ex.idxSort())
 		c := ex.declInput(name+"!cap", ex.idxSort())
 		ex.Assumes = append(ex.Assumes, ex.geZero(l), ex.le(l, c), ex.le(c, ex.maxLen()))
+		if _, scalarElem := ex.elemSort(u.Elem()); scalarElem && !ex.resultMode && depth == 0 {
+			// aliases for the first elements (model extraction for replay)
+			for i := 0; i < 48; i++ {
+				alias := sanitizeSym(fmt.Sprintf("%s!e%d", name, i))
+				ex.Defs = append(ex.Defs, Def{Name: alias, S: *st.Mem[r].S.Elem, T: Select(st.Mem[r], ex.idxConst(int64(i)))})
+				ex.Inputs = append(ex.Inputs, alias)
+			}
+		}
 		return SliceV{Elem: u.Elem(), Region: r, Off: ex.idxConst(0), Len: l, Cap: c}
 	case *types.Interface:
 		k := ex.declInput(name+"!kind", IntSort)
@@ -640,6 +656,14 @@ func (ex *Exec) globalCell(st *State, name string, t types.Type) *Cell {
 				ex.reject("global *big.Int %s has no dumped value", name)
 			}
 			st.Cells[c] = PtrV{K: PBig, Ref: IntC(int64(id)), Elem: t.(*types.Pointer).Elem()}
+			if ex.constSeen == nil {
+				ex.constSeen = map[string]bool{}
+			}
+			if !ex.constSeen[name] {
+				ex.constSeen[name] = true
+				bi, _ := newBig(ex.P.Consts[name])
+				ex.Assumes = append(ex.Assumes, Eq(Select(Sym("heap0", ArraySort(IntSort, IntSort)), IntC(int64(id))), IntBig(bi)))
+			}
 		} else if cv, ok := ex.P.Consts[name]; ok {
 			bi, _ := new(big.Int).SetString(cv, 10)
 			st.Cells[c] = Scalar{ex.intConst(bi, t)}
